@@ -55,7 +55,7 @@ def run(ctx, prop="C01", rule=RULE, reqs=None):
     if ok:
         rq = corpus_requests(prop) + (reqs or requests)(ctx)
         impl = [canon_impl(l) for l in ctx.impl(rq)]
-        model = ctx.model(rq)
+        model = [core.lossy_strings(m) for m in ctx.model(rq)]
         core.compare_streams(res, rq, impl, model, is_nontrivial=nontrivial,
                              label="VcdBody+Store model ~ vcd::read_body", sample_every=max(1, len(rq) // 8))
         res.count("files", len(rq))
